@@ -304,6 +304,13 @@ def u7_parameter_ranges(ctx) -> None:
     rest_lo = PT.find_all(h, f"_M_lo = {{_M_k: sum((_M_x[_M_k][0] for _M_x in {mm}[1:])) for _M_k in self.parent_parameters}}")
     rest_hi = PT.find_all(h, f"_M_hi = {{_M_k: sum((_M_x[_M_k][1] for _M_x in {mm}[1:])) for _M_k in self.parent_parameters}}")
     if not rest_lo or not rest_hi:
+        for agg in ("max", "min", "len", "any", "all"):
+            for which, pos in (("lower", 0), ("upper", 1)):
+                alt = PT.find_all(h, f"_M_t = {{_M_k: {agg}((_M_x[_M_k][{pos}] for _M_x in {mm}[1:])) for _M_k in self.parent_parameters}}")
+                if alt:
+                    ctx.violation("U7", alt[0][0], f"what the remaining children can absorb is computed with `{agg}` over their {which} bounds; it is their *sum* (each of them "
+                                  "takes its own share): the values offered to the first child are cut short or run over, and the weights no longer add up to the count")
+                    return
         raise AnalysisError("U7: the sums of the remaining children's lower / upper bounds are not computed in the known way")
     lo, hi = rest_lo[0][1]["_M_lo"], rest_hi[0][1]["_M_hi"]
     own = [t.id for n in walk_local(h) for t, v in [PT.assign_value(n)] if isinstance(t, ast.Name) and v is not None and norm(v) == f"{mm}[0]"
